@@ -170,6 +170,35 @@ Example tree_example :
   tree_dropout (1 # 2) t [0; 0]%nat sw [1 # 8] [3] = Some [3].
 Proof. repeat split; reflexivity. Qed.
 
+(* ---- the same Dropout object called several times ------------------------------------------------------ *)
+(* Sessions (State/ModeTree.v, [dev]): mode switches on any node, forwards through the root, and backward of any
+   earlier call's output, in any order.  Whatever happens between forward k and its backward — further forwards
+   of the same layer object (other draws, other shapes), mode switches, other backward calls — x_k.grad is
+   g * (mask tensor of call k): the mask recorded in call k's graph is never disturbed. *)
+Theorem backward_of_each_call_uses_its_own_mask :
+  forall p lp s h1 r x h2 g,
+    flag_at (dtree (drun p lp s h1)) lp = Some true ->
+    snd (dstep p lp (drun p lp s (h1 ++ DFwd r x :: h2)) (DBwd (length (dnodes (drun p lp s h1))) g))
+    = DGrad (dropout_bwd p r g).
+Proof. exact backward_uses_own_mask. Qed.
+Goal True. idtac "ASSUMPTIONS backward_of_each_call_uses_its_own_mask". Abort.
+Print Assumptions backward_of_each_call_uses_its_own_mask.
+
+Theorem forward_of_each_call_uses_its_own_draw :
+  forall p lp s r x, flag_at (dtree s) lp = Some true ->
+    snd (dstep p lp s (DFwd r x)) = DOut (dropout p true r x).
+Proof. exact forward_uses_own_draw. Qed.
+Goal True. idtac "ASSUMPTIONS forward_of_each_call_uses_its_own_draw". Abort.
+Print Assumptions forward_of_each_call_uses_its_own_draw.
+
+(* two same-shape forwards, then the backward of the FIRST call: its own mask [0; 2], not the second's [2; 0] *)
+Example two_forwards_then_first_backward :
+  let s := {| dtree := Node true []; dnodes := [] |} in
+  dtrace (1 # 2) [] s [DFwd [1 # 4; 3 # 4] [1; 1]; DFwd [3 # 4; 1 # 4] [1; 1]; DBwd 0 [1; 1]; DBwd 1 [1; 1]]
+  = [DOut [1 * (0 / (1 - (1 # 2))); 1 * (1 / (1 - (1 # 2)))]; DOut [1 * (1 / (1 - (1 # 2))); 1 * (0 / (1 - (1 # 2)))];
+     DGrad [1 * (0 / (1 - (1 # 2))); 1 * (1 / (1 - (1 # 2)))]; DGrad [1 * (1 / (1 - (1 # 2))); 1 * (0 / (1 - (1 # 2)))]].
+Proof. reflexivity. Qed.
+
 (* ---- Dropout ------------------------------------------------------------------------------------------- *)
 Theorem dropout_eval_identity : forall p r x, dropout p false r x = x.
 Proof. exact dropout_eval. Qed.
